@@ -1,5 +1,5 @@
 """C06 Dropping an operation cancels exactly it and reclaims its state exactly once."""
-from .kernel import guarded_by_variant, ExprBuilder, Loc, access_path, subexprs, variant_edges, is_local
+from .kernel import guarded_by_variant, resolve_upvars, ExprBuilder, Loc, access_path, subexprs, variant_edges, is_local
 from . import families as fam
 from . import life
 from . import sqe
@@ -45,7 +45,7 @@ def r1_cancel_on_running(r, facts):
     uds = [(loc, s) for loc, s in c.assigns() if [p.get('name') for p in s['lhs']['p'] if p['k'] == 'field'][-1:] == ['user_data']]
     r.require(len(uds) == 1, 'submit-closure/user_data', 'expected one user_data write in the submit closure, found %d' % len(uds), c.where())
     for loc, s in uds:
-        e = ebc.rvalue(s['rv'])
+        e = resolve_upvars(facts, c, ebc.rvalue(s['rv']))
         r.inst('submit user_data = %s' % (e,), c.where(loc))
         r.require(e[0] == 'call' and e[1] == life.USER_DATA, 'submit-closure/user_data', 'submission user_data is not State::user_data(state): %s' % (e,), c.where(loc))
     r.floor(2)
